@@ -84,6 +84,9 @@ def generate(seed, tier):
         world = gen_motif_world(Rng(seed, 'motif'), tier)
     if sw.chance(.06):
         world = gen_lattice_world(Rng(seed, 'lattice'), tier)
+    spill = sw.chance(.04)
+    if spill:
+        world = gen_spill_world(Rng(seed, 'spill'), tier)
     srng = Rng(seed, 'sched')
     n_items = len(world['cells']) + len(world['names'])
     scheds = []
@@ -97,6 +100,8 @@ def generate(seed, tier):
     for k in range(t['n_sched']):
         pl = pls[k % 2]
         kind = 'dict' if k == 0 or srng.chance(.7) else 'file'
+        if spill:
+            kind = 'file'
         s = {'kind': kind, 'placement': pl}
         if kind == 'dict':
             s['order'] = list(range(n_items)) if k == 0 else srng.perm(n_items)
@@ -266,6 +271,35 @@ def gen_lattice_world(rng, tier):
             world['cells'].append({'at': [0, 0, r, c], 'f': [
                 'op', rng.pick(['+', '+', '-']), ref(r - 1, c),
                 ref(r - 1, (c + 1) % w)]})
+    return world
+
+
+def gen_spill_world(rng, tier):
+    """A cycle that runs through a spill reference (B1#): the link from the
+    array formula to its anchor node is a plain function of the dataflow
+    graph, not a formula.  File path only (a dictionary has no anchors)."""
+    world = {'books': [[[4, 5]]], 'cells': [], 'names': []}
+    guard = rng.randrange(3)
+
+    def ref(r, c, r2=None, c2=None):
+        return ['r', 0, 0, r, c, r if r2 is None else r2,
+                c if c2 is None else c2]
+    back = ['f', 'SUM', ['an', 0, 0, 0, 1]]
+    if guard == 1:      # branch not selected
+        back = ['f', 'IF', ['op', '>', ref(1, 0), ['n', 5]], back, ['n', 1]]
+    elif guard == 2:    # branch selected
+        back = ['f', 'IF', ['op', '>', ref(1, 0), ['n', 0]], back, ['n', 1]]
+    else:
+        back = ['op', '+', back, ['n', 1]]
+    world['cells'].append({'at': [0, 0, 1, 0], 'v': rng.randrange(1, 5)})
+    world['cells'].append({'at': [0, 0, 2, 0], 'v': rng.randrange(1, 5)})
+    world['cells'].append({'at': [0, 0, 0, 0], 'f': back})
+    world['cells'].append({'at': [0, 0, 0, 1], 'arr': [3, 1], 'f': [
+        'op', '*', ref(0, 0, 2, 0), ['n', 2]]})
+    world['cells'].append({'at': [0, 0, 0, 3], 'f': [
+        'op', '+', ref(1, 0), ['n', 1]]})           # not downstream
+    world['cells'].append({'at': [0, 0, 1, 3], 'f': [
+        'op', '+', ref(1, 1), ['n', 1]]})           # reads a spill cell
     return world
 
 
